@@ -93,6 +93,10 @@ func (r *Run) ProbeN(name string, n int) { r.Res.Probes[name] += n }
 func (r *Run) Violate(prop, class, key string, step int, format string, args ...any) {
 	v := Violation{Property: prop, Class: class, Key: key, Step: step, Detail: fmt.Sprintf(format, args...)}
 	r.Note("VIOLATION %s %s %s: %s", prop, class, key, v.Detail)
+	// an oracle that fires is part of the history: two builds (C19) or two
+	// executions of one tape that differ only in what an oracle saw have
+	// different digests.  The detail is left out (it may quote addresses).
+	fmt.Fprintf(r.h, "!%s/%s/%s@%d\n", prop, class, key, step)
 	r.Res.Violations = append(r.Res.Violations, v)
 }
 
